@@ -115,6 +115,8 @@ def teardown(ctx):
 
 # -- workload ----------------------------------------------------------------------------------------------------------------
 def gen(rng, tier, shard, nshards):
+    if shard == 0:
+        yield {'kind': 'ambient-suite'}
     n = 75 if tier == 'quick' else 700
     forced = [dict(pdim=3, rational=True), dict(pdim=3, rational=False), dict(pdim=2, normalize=False, lohi=(-3.0, 7.5)),
               dict(pdim=1, kvcls='fullmult'), dict(pdim=2, rational=True)]
@@ -151,6 +153,10 @@ def structure_ok(ctx, pre, post, d, u, r, step):
 
 
 def check(case, ctx):
+    if case.get('kind') == 'ambient-suite':
+        from .. import ambient
+        ctx.nontriv(True)
+        return ambient.run_repo_suite(ctx, 'knot or insert or split or decompose')
     from geomdl import operations
     from geomdl.exceptions import GeomdlException
     sd = case['sd']
